@@ -30,7 +30,8 @@ free, undefined behaviour of the real machine code.
      every control-flow path of 36 functions of the attribute get/set core -
      including the allocation-failure paths no generator reaches - every
      reference acquired is released, returned, stolen or stored exactly once,
-     and nothing is released that is not held (`C18_paths_balanced*`).
+     and nothing is released that is not held (`C18_paths_balanced*`, no
+     exception listed).
 
 Only property theorems and their non-vacuity examples live here; helpers are
 in Lemmas/CTabIndex.lean, Lemmas/CTabLedger.lean and Lemmas/CTabRaw.lean.
@@ -666,50 +667,31 @@ TRUSTED: the API tables of crefpaths.py (which calls return new / borrowed
 references, which steal), that fields keep their value across calls, and the
 unrolling bound. -/
 
-/-- The exceptions, by name: (function, end of the path or `*`, value).  Each is
-a defect of the pinned `ctraits.c` (`C18_paths_known_imbalances_real` proves
-that each occurs):
-* `setattr_property0` never releases the `args` tuple it creates (its siblings
-  `setattr_property1..3` do): one leaked reference to the empty tuple per call;
-* `setattr_delegate` returns from the recursion-limit arm (`++i >= 100`)
-  without releasing `daname` (the value born in `daname2`);
-* `getattr_delegate` / `setattr_delegate` use the result of
-  `trait->delegate_attr_name(...)` without a NULL check: `Py_DECREF` of NULL
-  (and `tp_getattro(delegate, NULL)` before it).  Reachable from Python:
-  `Delegate('d', prefix='*')` on a class whose `__prefix__` is not a `str`
-  makes `delegate_attr_name_class_name` return NULL (`PyUnicode_Concat` raises
-  `TypeError`) and reading the attribute crashes the process. -/
-def knownImbalances : List (String × String × String) := [
-  ("setattr_property0", "*", "args"),
-  ("setattr_delegate", "return delegation_recursion_error(...)", "daname2"),
-  ("setattr_delegate", "return delegation_recursion_error(...)", "daname2~2"),
-  ("setattr_delegate", "*", "NULL:daname"),
-  ("getattr_delegate", "*", "NULL:delegate_attr_name")]
-
-/-- Does the exception `k` speak about path `p`? -/
-def knownApplies (k : String × String × String) (p : Model.RefPaths.Path) : Bool :=
-  k.1 == p.fn && (k.2.1 == "*" || k.2.1 == p.endKind)
-
-/-- Indices (in `Generated.RefPaths.values`) of the values excepted on path `p`. -/
-def knownSkip (p : Model.RefPaths.Path) : List Nat :=
-  (knownImbalances.filter (knownApplies · p)).map (fun k => Generated.RefPaths.values.idxOf k.2.2)
-
-/-- Path `p` is reference-neutral for every value it touches, the named exceptions aside. -/
-def pathOkKnown (p : Model.RefPaths.Path) : Bool := Model.RefPaths.pathOkExcept (knownSkip p) p
+/-! No exception is listed.  Three defects that the first run of this analysis
+found in the pinned `ctraits.c` have since been repaired in the source, and the
+theorem below is stated for plain `pathOk`:
+* F107 / F107b (e4a9aa5) `getattr_delegate` / `setattr_delegate` used the result of
+  `trait->delegate_attr_name(...)` without a NULL check: `Py_DECREF` of NULL and
+  `tp_getattro(delegate, NULL)` - `Delegate('d', prefix='*')` on a class whose
+  `__prefix__` is not a `str` crashed the process on read and on write;
+* F108 (3882e87) `setattr_property0` never released the `args` tuple it creates;
+* F109 (3882e87) `setattr_delegate` returned from the recursion-limit arm
+  (`++i >= 100`) without releasing `daname`. -/
 
 set_option maxRecDepth 20000 in
 /-- **Every control-flow path of every covered function of the working tree's
-`ctraits.c` is reference-neutral** (the five named exceptions aside): every
-value it touches ends with nothing held and nothing owed, and no prefix of the
-path releases, returns or gives away a reference the function does not hold.
+`ctraits.c` is reference-neutral**, no exception: every value it touches ends
+with nothing held and nothing owed, and no prefix of the path releases, returns
+or gives away a reference the function does not hold, or releases a NULL.
 Removing a `Py_DECREF` from an error arm, releasing twice (F74: the
 `Py_DECREF(name)` that `setattr_trait` had on its `PyDict_SetItem` failure
-path), dropping an `INCREF` of a copied field, or jumping past a release
-changes the generated table and this proof no longer checks. -/
-theorem C18_paths_balanced : ∀ p ∈ Generated.RefPaths.paths, pathOkKnown p = true :=
+path), dropping an `INCREF` of a copied field, jumping past a release, or
+reverting one of F107-F109 changes the generated table and this proof no
+longer checks. -/
+theorem C18_paths_balanced : ∀ p ∈ Generated.RefPaths.paths, Model.RefPaths.pathOk p = true :=
   List.all_eq_true.mp (by decide)
 
-/-! The same, function by function and WITHOUT exceptions, for the nine functions
+/-! The same, function by function, for the nine functions
 of the assignment / read / notification / clone core (a failure names the function). -/
 theorem C18_paths_balanced_setattr_trait :
     ∀ p ∈ Generated.RefPaths.paths_setattr_trait, Model.RefPaths.pathOk p = true := by decide
@@ -793,12 +775,18 @@ theorem C18_paths_stores :
       ("setattr_python", "obj->obj_dict", "PyDict_New()")] := by
   decide
 
-set_option maxRecDepth 20000 in
-/-- The exceptions are real, not slack: for each entry of `knownImbalances`
-some path of that function (with that end) mishandles exactly that value. -/
-theorem C18_paths_known_imbalances_real :
-    (knownImbalances.all fun k => Generated.RefPaths.paths.any fun p =>
-      knownApplies k p && (Model.RefPaths.offenders p).contains (Generated.RefPaths.values.idxOf k.2.2)) = true := by
+/-- The three repaired defects, as the analysis saw them before the repairs (the
+event lists of the then generated table, values renumbered): the leaked `args`
+of `setattr_property0` (F108), the `daname` leaked on the recursion-limit exit
+of `setattr_delegate` after one round (F109), and the `Py_DECREF` of the
+unchecked NULL name in `getattr_delegate` (F107) are each rejected. -/
+example :
+    Model.RefPaths.pathOk ⟨"setattr_property0", 2, "return 0", false,
+      [(0, .new), (1, .new), (1, .dec)]⟩ = false ∧
+    Model.RefPaths.pathOk ⟨"setattr_delegate", 0, "return delegation_recursion_error(...)", true,
+      [(0, .inc), (1, .new), (0, .dec)]⟩ = false ∧
+    Model.RefPaths.pathOk ⟨"getattr_delegate", 5, "return result", false,
+      [(0, .inc), (1, .new), (2, .bad), (0, .dec), (1, .ret)]⟩ = false := by
   decide
 
 /-- The checker can say no: `setattr_trait`'s `PyDict_SetItem` failure arm as it
